@@ -269,6 +269,12 @@ func (p *c01Prop) Run(ci interface{}) interface{} {
 				obs.Err = fmt.Sprintf("step %d: subscribe: %v", k, r.Err)
 			}
 			st.Tags = tagsOf(r.Retained)
+			// what a subscription is handed is the subscriber's own copy: a session lowers its QoS to the granted
+			// one and clears RETAIN unless Retain As Published is set. The store must not notice.
+			for _, m := range r.Retained {
+				_ = m.SetQoS(0)
+				m.SetRetain(false)
+			}
 		case "unsub":
 			_ = prov.UnSubscribe(topicsTypes.UnSubscribeReq{Filter: op.F, S: stub(op.S)})
 		case "ret":
